@@ -12,16 +12,16 @@ int8 `Rsqrt` (`Spec/RsqrtRef.lean`) on the *given* 256-entry table:
   square root and the product in **float** (`Float32`), the division in double, then `QuantizeMultiplier` (= Vela's
   `quantise_scale`, `Model/Scaling.lean`; `na` when it rounds up to the unnormalised `2^31` or leaves the range in which the
   two agree);
-* entries for codes below the input zero point are not judged (the reference rejects negative real inputs at run time);
-* answers `1 mult m shift s` | `0 index i expected e got g mult m shift s` |
-  `0 zero-input-only index i expected 127 got g …` when the only differing entry is the one for real input 0 | `na`.
+* entries for codes below the input zero point are not judged (the reference rejects negative real inputs at run time); the
+  entry for real input 0 (code = zero point) is judged like every other one (reference: 127);
+* answers `1 mult m shift s` | `0 index i expected e got g mult m shift s` | `na`.
 -/
 namespace VelaVerif.Handlers.RsqrtChk
 open VelaVerif VelaVerif.Handlers
 
 def firstBad (zi zo m : Int) (tflShift : Int) : List Int → List Int → Option (Int × Int × Int)
   | x :: xs, g :: gs =>
-    if x < zi ∨ x = zi then firstBad zi zo m tflShift xs gs
+    if x < zi then firstBad zi zo m tflShift xs gs
     else
       let e := RsqrtRef.rsqrtRef zi zo m tflShift x
       if e ≠ g then some (x, e, g) else firstBad zi zo m tflShift xs gs
@@ -44,17 +44,9 @@ def handle : List String → Option String
       if m ≤ 0 ∨ m ≥ 2147483648 ∨ sh + 20 < 0 ∨ sh + 20 > 62 ∨ sh < 11 then some "na" else
       let codes := VelaVerif.Lut.codes true
       let tail := s!" mult {m} shift {sh}"
-      -- the entry for real input 0 (code = zero point): reference 127
-      let zeroBad : Option (Int × Int) :=
-        match (codes.zip real).find? (fun p => p.1 == zi) with
-        | some (_, g) => if g ≠ 127 then some (zi, g) else none
-        | none => none
       match firstBad zi zo m (31 - sh) codes real with
       | some (x, e, g) => some (s!"0 index {x + 128} expected {e} got {g}" ++ tail)
-      | none =>
-        match zeroBad with
-        | some (x, g) => some (s!"0 zero-input-only index {x + 128} expected 127 got {g}" ++ tail)
-        | none => some ("1" ++ tail)
+      | none => some ("1" ++ tail)
   | _ => none
 
 end VelaVerif.Handlers.RsqrtChk
